@@ -193,9 +193,9 @@ def run_parity(ctx: Ctx) -> RuleResult:
         res.finding(ft, ft.node, 'the LALR driver does not apply the terminal callback exactly for registered token types', construct='embedded:shift')
     cc = repo.func('lark.parse_tree_builder:ParseTreeBuilder.create_callback')
     nodes = cc.body_nodes()
-    g_ = find_pat(nodes, '$f = getattr($tr, $name)')
+    g_ = find_pat(nodes, '$f = getattr($tr, $$name)')
     ok = bool(g_) and has_pat(nodes, "getattr($f, 'visit_wrapper', None)", {'f': g_[0][1]['f']}) \
-        and has_pat(nodes, '$f = partial($dc, $name)', {'f': g_[0][1]['f'], 'name': g_[0][1]['name']})
+        and has_pat(nodes, '$f = partial($dc, $$name)', {'f': g_[0][1]['f'], '$$name': g_[0][1]['$$name']})
     res.ob('%s %s' % (cc.loc(), cc.qual), 'embedded rule callbacks: method named like the node, v_args wrapper, else default with the same name', ok)
     if not ok:
         res.finding(cc, cc.node, 'create_callback no longer looks up the user method by the node name / falls back to the default with it',
@@ -204,7 +204,7 @@ def run_parity(ctx: Ctx) -> RuleResult:
     # f(children) without a wrapper, wrapper(f, <node name>, children, <meta>) with one.  Every adapter that
     # create_callback puts between the looked-up method and the shaping chain is inspected.
     if g_:
-        fvar, namevar = g_[0][1]['f'], g_[0][1]['name']
+        fvar, namevar = g_[0][1]['f'], g_[0][1]['$$name']
         mod = cc.module
         n_adapt = 0
         for asg, b_ in find_pat(nodes, '$f = $g($f, $$rest)', {'f': fvar}) + find_pat(nodes, '$f = $g($f)', {'f': fvar}) \
@@ -369,8 +369,10 @@ def run_node_name(ctx: Ctx) -> RuleResult:
         # the (unique) `a or b or c` chain of attribute reads that ends in `.origin.name`
         defs = [x for x in f.body_nodes() if isinstance(x, ast.BoolOp) and isinstance(x.op, ast.Or)
                 and any(norm(v).endswith('origin.name') for v in x.values)]
-        ok = len(defs) == 1
-        parts = _name_parts(defs[0]) if ok else None
+        # (one definition kept in a local, or the same chain written out at each use)
+        allparts = [_name_parts(d) for d in defs]
+        ok = len(defs) >= 1 and all(p_ == allparts[0] for p_ in allparts)
+        parts = allparts[0] if ok else (allparts or None)
         ok = ok and parts == want
         n += 1
         res.ob('%s %s' % (f.loc(), f.qual), 'node name == alias or options.template_source or origin.name (found %s)' % parts, ok)
